@@ -543,12 +543,15 @@ def execute(ctx: Ctx | None, case: dict, world: World | None = None, deep: bool 
         ctx.count("gather_token raised (counted as rejection)", rejected_by_exception)
     if deep and exact:
         offered = sorted(model.offered)
+        up_to = offered
         if sample_cap is not None and len(offered) > sample_cap:
             stride = len(offered) / sample_cap
-            deepest = max(model.closure, key=lambda i: len(model.root_path(i))) if model.closure else offered[0]
+            members = sorted(model.closure)
+            deepest = max(members, key=lambda i: (len(model.root_path(i)), -i)) if members else offered[0]
             offered = sorted({offered[int(k * stride)] for k in range(sample_cap)} | {deepest})
+            up_to = [deepest] + members[:2] + members[-2:]
         check_queries(world, model, view, case, offered)
-        check_serialisation(world, model, view, got, case, offered if sample_cap is None else offered[:3] + offered[-2:])
+        check_serialisation(world, model, view, got, case, up_to)
         check_owner_tree(world, case)
     if case.get("tail"):
         run_tail(world, model, view, case)
